@@ -1224,6 +1224,101 @@ func (s *c19Scan) rmwRows() ([]c19Row, map[string]string, error) {
 	return out, guards, nil
 }
 
+// ---------------------------------------------------------------- reads of the fork head that feed a decision
+//
+// The engine's critical section must START before the head is read: inside every function that takes the chain
+// lock (MineBlock, InsertBlock, InsertConfirms) each call that reads the fork head or the stable head — directly
+// (ForkManager.head load, ChainDatabase.LoadLatestBlock) or through any callee — must hold the lock taken by that
+// function.  Row: `access ForkManager.head.decision <F>/<callee> r <inside the section?> <F>`.
+//
+// One read is outside on purpose and is listed as `false` in the committed table: InsertBlock's early exit
+// isIgnorableBlock (block already stored / height ≤ stable).  It is a pre-check on MONOTONE facts (a stored block
+// stays known, the stable height only grows) whose negative answer is re-validated under the lock (VerifyAndSeal:
+// parent lookup, SetBlock: ErrExist / height ≤ last confirm); its positive answer only drops the request.
+
+const c19HeadDecision = "ForkManager.head.decision"
+const c19ChainLock = "DPoVP.chainLock"
+
+var c19BenignPrechecks = []string{"DPoVP.InsertBlock/DPoVP.isIgnorableBlock"}
+
+func (s *c19Scan) headDecisionRows() ([]c19Row, string, error) {
+	headVar := -1
+	for i, v := range c19Vars {
+		if v.Name == "ForkManager.head" {
+			headVar = i
+		}
+	}
+	reads := map[*c19Fn]bool{}
+	for _, f := range s.all {
+		if f.name == "ChainDatabase.LoadLatestBlock" && f.pkg == "store" {
+			reads[f] = true
+		}
+		for _, a := range f.accesses {
+			if a.v == headVar && !a.write {
+				reads[f] = true
+			}
+		}
+	}
+	if len(reads) < 2 {
+		return nil, "", fmt.Errorf("head readers not found (ForkManager.head load / ChainDatabase.LoadLatestBlock)")
+	}
+	for changed := true; changed; {
+		changed = false
+		for _, f := range s.all {
+			if reads[f] {
+				continue
+			}
+			for _, c := range f.calls {
+				for _, t := range c.callees {
+					if reads[t] && !reads[f] {
+						reads[f] = true
+						changed = true
+					}
+				}
+			}
+		}
+	}
+	bit := s.lockBit(c19ChainLock)
+	if bit == 0 {
+		return nil, "", fmt.Errorf("lock %s not found", c19ChainLock)
+	}
+	agg := map[[2]string]bool{}
+	takers := 0
+	for _, f := range s.all {
+		if !inList(f.pkg, c19Anchored) || f.locksTaken&bit == 0 {
+			continue
+		}
+		takers++
+		for _, c := range f.calls {
+			for _, t := range c.callees {
+				if !reads[t] {
+					continue
+				}
+				key := [2]string{f.name, t.name}
+				ok := c.held&bit != 0
+				if old, seen := agg[key]; seen {
+					agg[key] = old && ok
+				} else {
+					agg[key] = ok
+				}
+			}
+		}
+	}
+	if takers == 0 || len(agg) == 0 {
+		return nil, "", fmt.Errorf("no function taking %s with a read of the head found", c19ChainLock)
+	}
+	var out []c19Row
+	guard := c19ChainLock
+	for key, held := range agg {
+		fn := key[0] + "/" + key[1]
+		if !held && !inList(fn, c19BenignPrechecks) {
+			guard = "none"
+		}
+		out = append(out, c19Row{c19HeadDecision, fn, "r", held, key[0]})
+	}
+	return out, guard, nil
+}
+
 // c19AllVarNames: the shared variables of c19Vars followed by the read-modify-write records of c19RMWs
 func c19AllVarNames() []string {
 	var out []string
@@ -1233,6 +1328,7 @@ func c19AllVarNames() []string {
 	for _, r := range c19RMWs {
 		out = append(out, r.Name)
 	}
+	out = append(out, c19HeadDecision)
 	return out
 }
 
@@ -1247,6 +1343,9 @@ func c19NominalLock(name string) string {
 		if r.Name == name {
 			return r.Lock + " (one critical section from the read to the write back)"
 		}
+	}
+	if name == c19HeadDecision {
+		return c19ChainLock + " (the section must start before the head is read)"
 	}
 	return ""
 }
@@ -1272,6 +1371,12 @@ func c19ScanRepo(repo string) ([]c19Row, map[string]string, error) {
 		return nil, nil, err
 	}
 	rows = append(rows, rrows...)
+	hrows, hguard, err := s.headDecisionRows()
+	if err != nil {
+		return nil, nil, err
+	}
+	rows = append(rows, hrows...)
+	guards[c19HeadDecision] = hguard
 	sort.Slice(rows, func(i, j int) bool { return rows[i].String() < rows[j].String() })
 	for k, v := range rguards {
 		guards[k] = v
